@@ -54,7 +54,7 @@ CHECKS = {
     "C12": dict(
         engine="kvc", category="proof", design_ref="DESIGN.md §2, §6 C12",
         technique="deductive verification: symbolic cut point k over the real load AST - no path returns or passes mmap on any strict prefix; plus exhaustive cut enumeration on real files (bounded)",
-        text="For every documented file F (size field == len(F)-16, proved from save) and every 0 <= k < len(F), abstract execution of the real load shows each path ends in a raise (short magic/version read, struct.error on a short size word, mmap longer than the file); each raising path is feasible (not vacuous). Additionally every cut of every file in scope is loaded for real.",
+        text="For every documented file F (size field == len(F)-16, proved from save) and every 0 <= k < len(F), abstract execution of the real load shows each path ends in a raise (short magic/version read, struct.error on a short size word, mmap longer than the file); each raising path is feasible (not vacuous). Additionally every cut of every file in scope is loaded for real, and sparse files of 4-16 GiB apparent size (payload and row totals crossing 2**32) are cut around every power-of-two residue of payload, length and totals.",
         note="Rests on C11's size-field obligation (included in this check's obligations) and on the mmap/struct/read axioms (probed each run).",
     ),
     "C10": dict(
@@ -107,8 +107,8 @@ CHECKS = {
     ),
     "C03": dict(
         engine="rtc", category="exploration", design_ref="DESIGN.md §4, §6 C03",
-        technique='run-time contracts on the real functions over an exhaustively enumerated bounded scope (bounded stand-in: NumPy-heavy bodies are outside the VC generator)',
-        text='The same postcondition out ~ Spec_agg(views, fact, weights, policy) on both cube types for count, valid_count, sum, mean (missing cells exactly, values within 1e-9 of the grand total, exact shape) plus direct ccube/xcube agreement; intermediate contracts on as_separate_validity, _set_strides/strided_dims, every ffunc/xfunc __init__, get_initial_regions, _fill closures and xfunc fill (per-bin values and counters).',
+        technique='deductive verification of the real reduce methods of both cube types cell-wise on the same symbols (z3) + run-time contracts on the real functions over an exhaustively enumerated bounded scope',
+        text='Proved for all cell contents (128 obligations; floats as reals): ffunc_X.reduce and xfunc_X.reduce (X = count, valid_count, sum, mean) give the same missing flag and the same value, and the value is the direct per-cell aggregate. Bounded: The same postcondition out ~ Spec_agg(views, fact, weights, policy) on both cube types for count, valid_count, sum, mean (missing cells exactly, values within 1e-9 of the grand total, exact shape) plus direct ccube/xcube agreement; intermediate contracts on as_separate_validity, _set_strides/strided_dims, every ffunc/xfunc __init__, get_initial_regions, _fill closures and xfunc fill (per-bin values and counters).',
         note="Bounded: pairwise-covering design over fact form x weight form x policy x dim dtype x format on every cube in scope, exhaustive data for 1-dim cubes N<=3; two independent formulations of the spec's missing set are cross-checked on every input.",
     ),
     "C04": dict(
